@@ -188,6 +188,29 @@ def check_case(ctx, case, history_rng=None, others=()):
                 return
     if len(_memo_bad) > nbad:
         ctx.violation("sub-field-memo:wrong-hit", {**_memo_bad[-1], "source": case["source"]}, case)
+    # experimental fragment variables, metamorphically (they are not part of the specification's algorithm, so R3 does not
+    # model them): giving every fragment a variable of its own that only switches an extra field off must change
+    # nothing - in particular the operation's variables keep their values inside such fragments
+    if 'fragment ' in case["source"] and case["seed"] % 4 == 1:
+        import re
+        src2 = re.sub(r'fragment (\w+) on (\w+)((?:\s*@\w+(?:\([^)]*\))?)*)\s*\{',
+                      r'fragment \1($zzOff: Boolean = true) on \2\3 { zzKey: __typename @skip(if: $zzOff)', case["source"])
+        try:
+            doc2 = parse(src2, experimental_fragment_arguments=True)
+            ok2 = not validate(schema, doc2)
+        except GraphQLError:
+            ok2 = False
+        if ok2:
+            ctx.count("fragment_variable_variants_compared")
+            res3, calls3, _ = run_request(schema, doc2, case)
+            def essence(r):      # locations shift with the inserted text
+                return json.dumps([r.data, sorted((e.message, json.dumps(e.path)) for e in r.errors or [])], default=repr)
+            if essence(res3) != essence(res) or [(p, canon(k)) for p, k in calls3] != [(p, canon(k)) for p, k in calls]:
+                ctx.violation("fragment-variables-change-the-response", {"source": src2[:700], "variables": case["variables"],
+                                                                         "plain": first[:400], "with_fragment_variables": json.dumps(res3.formatted, default=repr)[:400]}, case)
+                return
+        else:
+            ctx.count("fragment_variable_variants_not_valid")
     if len(calls) >= 3:
         ctx.nontrivial((case["source"], json.dumps(case["variables"], sort_keys=True, default=repr), case["seed"]))
     return doc
